@@ -153,26 +153,30 @@ static void pmap_grow(void)
 #endif
 #define FAR_SLOTS 2048
 #define FAR_BASE ((uintptr_t)1 << 44)
-static unsigned char far_mapped[2][FAR_SLOTS], far_busy[2][FAR_SLOTS];
+static unsigned char far_mapped[3][FAR_SLOTS], far_busy[3][FAR_SLOTS];
+static size_t far_nodeoff;      /* mode 3: the member at this offset of every element lies exactly on a multiple of 2^32 */
+void simheap_far_nodeoff(size_t off) { far_nodeoff = off; }
 static int far_mode, far_next;
 unsigned g_far_placed;
-void simheap_far(int mode) { far_mode = SIM_REALFREE ? 0 : mode; far_next = 0; }
+void simheap_far(int mode) { far_mode = SIM_REALFREE ? 0 : mode; far_next = 0; far_nodeoff = 0; }
 static unsigned char *far_take(size_t bytes, int *slot_out)
 {
     int m = far_mode - 1, tries;
-    if (far_mode < 1 || far_mode > 2 || bytes > 2048) return NULL;
+    if (far_mode < 1 || far_mode > 3 || bytes > 2048 || (far_mode == 3 && far_nodeoff + CAN > 2048)) return NULL;
     for (tries = 0; tries < FAR_SLOTS; tries++) {
         int sl = far_next; uintptr_t pg;
         far_next = (far_next + 1) % FAR_SLOTS;
         if (far_busy[m][sl]) continue;
-        pg = FAR_BASE + (m ? ((uintptr_t)1 << 46) + (uintptr_t)sl * ((uintptr_t)3 << 31) : (uintptr_t)sl << 32);
+        pg = FAR_BASE + (m == 2 ? ((uintptr_t)1 << 45) + ((uintptr_t)(sl + 1) << 32) - 4096 : m ? ((uintptr_t)1 << 46) + (uintptr_t)sl * ((uintptr_t)3 << 31) : (uintptr_t)sl << 32);
         if (!far_mapped[m][sl]) {
-            if (mmap((void *)pg, 4096, PROT_READ | PROT_WRITE, MAP_PRIVATE | MAP_ANONYMOUS | MAP_FIXED_NOREPLACE, -1, 0) != (void *)pg) { far_busy[m][sl] = 2; continue; }
+            size_t len = m == 2 ? 8192 : 4096;      /* mode 3: the page below and the page above a multiple of 2^32 */
+            if (mmap((void *)pg, len, PROT_READ | PROT_WRITE, MAP_PRIVATE | MAP_ANONYMOUS | MAP_FIXED_NOREPLACE, -1, 0) != (void *)pg) { far_busy[m][sl] = 2; continue; }
             far_mapped[m][sl] = 1;
         }
         far_busy[m][sl] = 1;
         *slot_out = m * FAR_SLOTS + sl;
         g_far_placed++;
+        if (m == 2) return (unsigned char *)pg + 4096 - far_nodeoff - CAN;      /* user pointer = boundary - nodeoff */
         return (unsigned char *)pg + (m ? 64 + (sl % 16) * 112 : 256);
     }
     return NULL;
